@@ -119,6 +119,7 @@ class Fault:
         self.done = False
         self.info = None
         self.undetectable = False
+        self.stuck = False
 
     # -- byte streams (mboot UART, SDP UART) --------------------------------------------------
     def apply_stream(self, start, kind, raw):
@@ -130,6 +131,12 @@ class Fault:
             if kind != "ack" or end <= self.pos:
                 return raw
             new = bytes([MD.START, MD.FT_NAK if k == "nak" else MD.FT_ABORT])
+        elif k == "stuck":
+            # the device hangs while busy: from this emission on the line carries 'not ready' bytes (0x00) for ever
+            if not start <= self.pos < end:
+                return raw
+            new = b""
+            self.stuck = True
         else:
             if not start <= self.pos < end:
                 return raw
@@ -232,6 +239,10 @@ class Link:
 
     def read_stream(self, n: int, timeout_s: float) -> bytes:
         self._count_read()
+        if self.fault is not None and self.fault.stuck and not self.inbuf:
+            CLOCK.advance(1e-3 * n)  # a busy device repeats its 'not ready' byte about once per millisecond
+            self.events.append(("r", n, bytes(n)))
+            return bytes(n)
         out = bytes(self.inbuf[:n])
         del self.inbuf[:n]
         CLOCK.advance(timeout_s if len(out) < n else 1e-4 * len(out))
@@ -1165,6 +1176,8 @@ def _fault_candidates(tr, emissions, rng):
             cands.append(("notready", start, rng.randrange(8)))
             if kind in ("cmd", "data", "pingr"):
                 cands.append(("crc", start, rng.randrange(255)))
+            if kind in ("ack", "cmd"):
+                cands.append(("stuck", start, 0))
             if kind == "ack":
                 cands.append(("nak", start, 0))
                 cands.append(("abort", start, 0))
@@ -1282,7 +1295,9 @@ def run_mboot_fault_case(ctx, cfg, ops, rng, budget, cands_fn=None):
     for kind, pos, arg in cands:
         f = Fault(kind, pos, arg)
         try:
-            sess = MbootSession(cfg, fault=f, max_reads=bound)
+            # a line stuck at 'not ready' costs one driver read per millisecond of the host's timeout (5 s on the serial link):
+            # the bound for it is four such waits
+            sess = MbootSession(cfg, fault=f, max_reads=bound + (20000 if kind == "stuck" else 0))
         except ReadBudget:
             ctx.violation(fault_key(tr, {"op": "open"}, f, Outcome(), "bound"), {"cfg": cfg, "fault": [kind, pos, arg], "bound": bound})
             continue
@@ -1364,6 +1379,8 @@ def run_mboot_fault_case(ctx, cfg, ops, rng, budget, cands_fn=None):
             else:
                 stats["surfaced"] += 1
                 ctx.ok(sig + ["surfaced", type(out.exc).__name__ if out.exc else "status"])
+            if kind == "stuck":
+                break  # the line stays stuck: every later call would only repeat the same wait
             # the calls that follow run on the link as the fault left it (section 'after the fault' of the docstring)
             del sess.core.anomalies[:]
             if getattr(sess.tdev, "malformed", None):
